@@ -291,11 +291,14 @@ pub fn verify_authenticate(account: &Account, negotiate: &[u8], challenge_bytes:
         }
     }
     // key exchange
-    if a.session_key.len() != 16 {
+    let session_base = hmac_md5(&key, proof);
+    // a server that did not offer key exchange and a client that did not do one: the exported key is the key exchange key,
+    // which is the session base key under NTLMv2
+    let no_kx = challenge.flags & NEG_KEY_EXCH == 0 && a.flags & NEG_KEY_EXCH == 0 && a.session_key.is_empty();
+    if !no_kx && a.session_key.len() != 16 {
         return Err(format!("key-exchange: EncryptedRandomSessionKey is {} bytes", a.session_key.len()));
     }
-    let session_base = hmac_md5(&key, proof);
-    let exported = Rc4::new(&session_base).apply(&a.session_key);
+    let exported = if no_kx { session_base.clone() } else { Rc4::new(&session_base).apply(&a.session_key) };
     // MIC over the three messages with the MIC field zeroed
     let mut zeroed = auth_bytes.to_vec();
     for b in zeroed[a.mic_offset..a.mic_offset + 16].iter_mut() {
